@@ -358,10 +358,16 @@ theorem labelmapRead_stacked (st : Stored) (rq : Req) (d : DType) (wf : WfLabel 
 /-! ### the entry points -/
 
 theorem frameAdmitted_iff (k : Nat) (a : Bool) (m : Nat) :
-    (match frameAdmitted (k : Int) a (m : Int) with | .ok _ => true | .error _ => false) =
-      (decide (k ≠ 0) && (a || decide (k ≤ m))) := by
+    (frameAdmitted (k : Int) a (m : Int)).isOk = (decide (k ≠ 0) && (a || decide (k ≤ m))) := by
   unfold frameAdmitted
-  cases a <;> simp <;> grind
+  by_cases h0 : k = 0
+  · subst h0; simp [Except.isOk, Except.toBool]
+  · have hk' : 0 < k := by omega
+    by_cases hm : k ≤ m
+    · have hm' : ¬ ((k : Int) > (m : Int)) := by omega
+      cases a <;> simp [Except.isOk, Except.toBool, h0, hm, hk', hm']
+    · have hm' : ((k : Int) > (m : Int)) := by omega
+      cases a <;> simp [Except.isOk, Except.toBool, h0, hm, hk', hm']
 
 /-- the translated per-number checks (T8f) over the whole request, in closed form -/
 theorem framesAdmitted_eq (st : Stored) (a : Bool) (keys : List Nat) :
